@@ -5,5 +5,5 @@ _d = os.path.join(os.path.dirname(os.path.abspath(__file__)), 'props')
 def have(ids):
     return [i for i in ids if os.path.exists(os.path.join(_d, i + '.py'))]
 LAYERS = have(['Lip4', 'Ludp', 'Leth', 'Ldot1q', 'Licmp4', 'Ltcp', 'Lsctp', 'Lip6', 'Licmp6', 'Lgre',
-               'Larp', 'Lllc', 'Lvxlan', 'Lmpls', 'Lpppoe', 'Lppp', 'Lloopback', 'Leapol', 'Lipsec', 'Lvrrp', 'Lgeneve', 'Ldns', 'Ldiameter', 'Lntp', 'Ligmp', 'Lbfd', 'Lradius', 'Ldhcp4', 'Letherip', 'Lfddi', 'Ludplite', 'Lerspan2', 'Lgtp', 'Lmodbus', 'Lrudp', 'Lusb', 'Lradiotap', 'Ldot11', 'Ldot11mgmt'])
+               'Larp', 'Lllc', 'Lvxlan', 'Lmpls', 'Lpppoe', 'Lppp', 'Lloopback', 'Leapol', 'Lipsec', 'Lvrrp', 'Lgeneve', 'Ldns', 'Ldiameter', 'Lntp', 'Ligmp', 'Lbfd', 'Lradius', 'Ldhcp4', 'Letherip', 'Lfddi', 'Ludplite', 'Lerspan2', 'Lgtp', 'Lmodbus', 'Lrudp', 'Lusb', 'Lradiotap', 'Ldot11', 'Ldot11mgmt', 'Ldot11data', 'Ldot11ctrl'])
 SWEEP = have(['Sweep'])
